@@ -9,7 +9,7 @@ Quantifier: all index directories and all assigned sets, over repeated cleanups.
 
 Model: C32/Model.lean (cleanup.go's six phases over abstract directory states).  Lemmas: C32/Lemmas, C32/Phases.
 -/
-import ZoektModel.C32.Keep
+import ZoektModel.C32.Purge
 namespace ZoektModel.C32
 
 theorem cleanup_removes_tmps (d : Dir) (a : List Nat) (now : Int) (m : Bool) : (cleanup d a now m).tmps = 0 := by
@@ -169,6 +169,43 @@ theorem assigned_kept_partial_keptIn (d : Dir) (A : List Nat) (now : Int) (m : B
   obtain ⟨g, hg, hb, ha⟩ := assigned_kept_partial d A now m f hf HU Hall Hdisj
   simp only [keptIn, List.any_eq_true]
   exact ⟨g, hg, by simp [hb, ha id hid]⟩
+
+/-- **trash_purge_rule** for the purge phase (the only phase whose purpose is to delete from the trash): a trashed
+    file is gone after phase 1 only if a repository alive in it has a trashed shard older than 24 h or an indexed copy.
+    (Later phases only move trashed files back into the index, or — the known finding
+    C32-fresh-trash-replaced-same-basename — replace one by a newly trashed shard of the same file name.) -/
+theorem trash_purge_rule_phase1 (d : Dir) (now : Int) (H2 : TrashNamesUnique d) (f : File) (hf : f ∈ d.trash) :
+    TKept f (phase1 now (getShards d.index false) (getShards d.trash true) d).1.trash ∨
+      ∃ id, aliveIn f id = true ∧ (oldInTrash d now id = true ∨ searchable d.index id = true) := by
+  rcases tkept_phase1 (f := f) now (getShards d.index false) (getShards d.trash true) d ⟨f, hf, by simp [sameBase], rfl⟩ with h | h
+  · exact Or.inl h
+  · right
+    obtain ⟨e, he, hwhy, s, hs, hoff⟩ := h
+    have hoff' : s.compound = f.compound ∧ s.key = f.key := Classical.not_not.mp hoff
+    obtain ⟨_, _, g, hg, hb, ha⟩ := getShards_sound d.trash true e he s hs
+    rw [sameBase_iff] at hb
+    have hgf : g = f := H2 g hg f hf (hb.1.trans hoff'.1) (hb.2.trans hoff'.2)
+    refine ⟨e.1, by rw [← hgf]; exact ha, ?_⟩
+    rcases hwhy with hidx | hold
+    · right
+      simp only [mapHas, List.any_eq_true, beq_iff_eq] at hidx
+      obtain ⟨e', he', hk⟩ := hidx
+      have hne := getShards_entry_nonempty d.index false e' he'
+      cases hl : e'.2 with
+      | nil => exact absurd hl hne
+      | cons s' r =>
+        obtain ⟨_, _, g', hg', _, ha'⟩ := getShards_sound d.index false e' he' s' (by rw [hl]; simp)
+        simp only [searchable, List.any_eq_true]
+        exact ⟨g', hg', by rw [← hk]; exact ha'⟩
+    · left
+      simp only [List.any_eq_true, decide_eq_true_eq] at hold
+      obtain ⟨s', hs', hlt⟩ := hold
+      have hk := (getShards_spec d.trash true).1 e he s' hs'
+      obtain ⟨f', hf', r, hr, htomb, rfl⟩ := (getShards_spec d.trash true).2.2 e he s' hs'
+      simp only [oldInTrash, List.any_eq_true, Bool.and_eq_true, decide_eq_true_eq]
+      refine ⟨f', hf', ?_, hlt⟩
+      rw [aliveIn_iff]
+      exact ⟨r, hr, by rw [← hk]; rfl, htomb⟩
 
 /-! ### the full statement is false on the model: a compound shard that still holds assigned repositories is deleted -/
 
